@@ -42,7 +42,12 @@ def summary_form(func, env0=None):
             if v is not None and (any(isinstance(c_, ast.Call) and (getattr(c_.func, "id", "") or "").startswith("__") for c_ in ast.walk(v))
                                   or "@" + p_ in sm.env and not (isinstance(v, ast.Name) and v.id == p_)):
                 left.append((p_, repr(canon(v))))
-        return canon(sm.result), tuple(sorted((repr(canon(g)) for g in sm.guards))), tuple(left)
+        # values that are computed and never read (`_ = 1 // (2 - x.ndim)`): evaluated for nothing but the exception they may raise
+        loaded = {x.id for x in ast.walk(fn) if isinstance(x, ast.Name) and isinstance(x.ctx, ast.Load)}
+        dead = sorted(repr(canon(st.value)) for st in ast.walk(fn) if isinstance(st, ast.Assign) and len(st.targets) == 1
+                      and isinstance(st.targets[0], ast.Name) and st.targets[0].id not in loaded and st.targets[0].id not in params
+                      and not isinstance(st.value, (ast.Constant, ast.Name)))
+        return canon(sm.result), tuple(sorted((repr(canon(g)) for g in sm.guards))), tuple(left), tuple(dead)
     except Exception:
         return None
 
